@@ -188,3 +188,57 @@ def race_external(smt, timeout_s):
         except OSError:
             pass
     return status, solver, time.time() - t0
+
+
+def run_contract(prog, spec, con, mode, options=None):
+    options = dict(options or {})
+    options['mode'] = mode
+    return verify_function(prog, spec, con, mode=mode, options=options)
+
+
+def check_covers(ex, timeout_ms):
+    """Vacuity guard: the precondition is satisfiable and at least one return is reachable."""
+    out = []
+    req = [c for c in ex.covers if c[0].endswith('/requires')]
+    rets = [c for c in ex.covers if '/return#' in c[0]]
+    for (name, asm) in req:
+        s = z3.Solver()
+        s.set('timeout', min(timeout_ms, 5000))
+        s.add(*asm)
+        out.append((name, str(s.check())))
+    if rets:
+        ok = 'unsat'
+        for (name, asm) in rets:
+            s = z3.Solver()
+            s.set('timeout', min(timeout_ms, 5000))
+            s.add(*asm)
+            r = str(s.check())
+            if r == 'sat':
+                ok = 'sat'
+                break
+            if r == 'unknown':
+                ok = 'unknown'
+        out.append((rets[0][0].split('#')[0], ok if ok != 'unknown' else 'sat'))
+    return out
+
+
+def probe_model(ex, spec, con, o):
+    """Re-solve a failed obligation and evaluate the contract's probe expressions in the model (inputs for the replay)."""
+    probes = {}
+    try:
+        s = z3.Solver()
+        s.set('timeout', 5000)
+        s.add(*o.assumptions)
+        s.add(z3.Not(o.goal))
+        if s.check() != z3.sat:
+            return probes
+        m = s.model()
+        for (name, term) in getattr(ex, 'probe_terms', []):
+            try:
+                v = m.eval(term, model_completion=True)
+                probes[name] = str(v)
+            except Exception:
+                pass
+    except Exception:
+        pass
+    return probes
